@@ -238,6 +238,44 @@ def bf (w : UInt64) : Float := Float.ofBits w
 def boolW (b : Bool) : UInt64 := if b then fb 1.0 else fb 0.0
 def truthyW (w : UInt64) : Bool := bf w > 0.0
 
+/-- exponent field of a finite non-zero double -/
+def expBits (x : Float) : Nat := ((x.toBits >>> 52) &&& 0x7ff).toNat
+
+/-- halve `s` until it is at most `r` (at most 53 times for a subnormal divisor, once otherwise) -/
+def halveTo : Nat → Float → Float → Float
+  | 0, s, _ => s
+  | n + 1, s, r => if s > r then halveTo n (s / 2.0) r else s
+
+/-- double `s` while the double is still at most `r` (a subnormal divisor has a smaller exponent than its field says) -/
+def doubleTo : Nat → Float → Float → Float
+  | 0, s, _ => s
+  | n + 1, s, r => if s * 2.0 ≤ r then doubleTo n (s * 2.0) r else s
+
+/-- C `fmod` (Rust `%` on `f64`), exact: the remainder of the magnitudes by shift-and-subtract on the scaled divisor
+(every intermediate `r - y·2^k` with `y·2^k ≤ r < y·2^(k+1)` is exact in binary floating point), sign of the dividend -/
+def fmodF (x y : Float) : Float :=
+  if x.isNaN || y.isNaN || x.isInf || y == 0.0 then (0.0 / 0.0 : Float)
+  else if y.isInf then x
+  else
+    let ax := x.abs
+    let ay := y.abs
+    if ax < ay then x
+    else
+      let rec go (fuel : Nat) (r : Float) : Float :=
+        match fuel with
+        | 0 => r
+        | fuel + 1 =>
+          if r < ay then r
+          else
+            -- largest k with ay * 2^k ≤ r: start from the exponent difference
+            let k := expBits r - expBits ay
+            let p2 := fun (n : Nat) => Float.exp2 (Float.ofNat n)
+            let s := ay * p2 (min k 1000) * p2 (min (k - 1000) 1000) * p2 (k - 2000)
+            let s := doubleTo 64 (halveTo 64 s r) r
+            go fuel (r - s)
+      let r := go 2200 ax
+      if x < 0.0 then -r else (if r == 0.0 && x.toBits >>> 63 == 1 then -r else r)
+
 def evalUn (op : UnOp) (a : UInt64) : UInt64 :=
   match op with
   | .negf => fb (-(bf a))
@@ -259,7 +297,7 @@ def evalBin (op : BinOp) (a b : UInt64) : Except Err UInt64 :=
   | .subf => .ok (fb (bf a - bf b))
   | .mulf => .ok (fb (bf a * bf b))
   | .divf => .ok (fb (bf a / bf b))
-  | .modf => .error (.unsupported "modf")
+  | .modf => .ok (fb (fmodF (bf a) (bf b)))
   | .powf => .ok (fb ((bf a).pow (bf b)))
   | .addi => .ok (a + b)
   | .subi => .ok (a - b)
@@ -691,14 +729,21 @@ deriving Repr, Inhabited
 
 def findFn (P : Prog) (name : String) : Option Nat := P.fns.findIdx? (fun f => f.label == name)
 
-/-- `execute_main`: function 0 (`_mimium_global`) with an empty global storage; then the storage takes the size of `dsp`'s layout -/
+/-- `Vec::resize(n, 0)` -/
+def resizeWords (ws : List UInt64) (n : Nat) : List UInt64 := ws.take n ++ List.replicate (n - ws.length) 0
+
+/-- `execute_main`: function 0 (`_mimium_global`) in a global storage sized from its own layout (it may call stateful
+functions); `execute_idx(dsp)` then resizes the same storage to the size of `dsp`'s layout (the leading words survive) -/
 def Machine.init (fuel : Nat) (P : Prog) (sr : UInt64) : Except Err Machine := do
   let g0 : Glob := ⟨#[], #[], #[], Array.replicate P.globals 0, 0, sr⟩
-  let (_, g1, _, _) ← runFn P fuel 0 [] none g0 ⟨0, []⟩ []
+  let size0 := match P.fns[0]? with
+    | some f => f.sk.size
+    | none => 0
+  let (_, g1, st1, _) ← runFn P fuel 0 [] none g0 ⟨0, List.replicate size0 0⟩ []
   let size := match (findFn P "dsp").bind (P.fns[·]?) with
     | some f => f.sk.size
     | none => 0
-  .ok ⟨g1, ⟨0, List.replicate size 0⟩⟩
+  .ok ⟨g1, ⟨st1.pos, resizeWords st1.data size⟩⟩
 
 /-- one sample: `set_input`, `execute_idx(dsp)`; the value memory of the previous sample is dropped -/
 def Machine.step (fuel : Nat) (P : Prog) (m : Machine) (now : UInt64) (inputs : List UInt64) :
